@@ -7,6 +7,7 @@ import NodisVerif.Driver.FragOps
 import NodisVerif.Driver.ProtoOps
 import NodisVerif.Driver.LinkedListOps
 import NodisVerif.Driver.SlOps
+import NodisVerif.Driver.RespWriterOps
 import NodisVerif.Model.Feed
 open NodisVerif
 
@@ -21,6 +22,7 @@ structure DState where
   ll : LinkedList.PList := {}                    -- the bare pointer-level list of the `ll` lines (C02)
   sl : Skiplist.SL := Skiplist.makeSkiplist      -- the pointer-level skiplist of the `sl` ops
   slz : Skiplist.PZSet := Skiplist.PZSet.empty   -- the pointer-level sorted set of the `slz` ops
+  wr : RespWriter.Writer := RespWriter.new       -- the bare RESP reply writer of the `wr` lines (C16)
 
 def DState.sv (d : DState) : Server := ((d.inst.find? (·.1 == d.cur)).map (·.2)).getD {}
 def DState.putSv (d : DState) (sv : Server) : DState :=
@@ -47,6 +49,12 @@ def step (d : DState) (line : String) : DState × String :=
   | "ll" :: rest => let (l, out) := Driver.llOp d.ll rest; ({ d with ll := l }, out)
   | "sl" :: rest => let (sl, out) := Driver.slOp d.sl rest; ({ d with sl := sl }, out)
   | "slz" :: rest => let (p, out) := Driver.slzOp d.slz rest; ({ d with slz := p }, out)
+  | "wr" :: rest =>
+    -- take the writer out of the state first, so that the model's buffer is updated in place
+    let w := d.wr
+    let d := { d with wr := ⟨#[], 0, false, #[]⟩ }
+    let (w', out) := Driver.wrOp w rest
+    ({ d with wr := w' }, out)
   | "pev" :: rest => let (p, out) := Driver.protoOp d.proto rest; ({ d with proto := p }, out)
   | "bev" :: rest => let (b, out) := Driver.blockOp d.block rest; ({ d with block := b }, out)
   | "gev" :: rest => let (g, out) := Driver.gateOp d.gate rest; ({ d with gate := g }, out)
